@@ -138,6 +138,50 @@ def gen(rng, tier, shard, nshards):
     for _ in range(total):
         desc = G.gen_desc(rng, {"flavour": rng.choice(FLAVOURS)})
         yield from cases_of(desc, rng)
+        for _k in range(3):
+            yield {"op": "start", "c": gen_start(rng)}
+
+
+def gen_start(rng):
+    """one integer signal with scaling, limits on the raw grid, an initial value inside them; optionally a default on the definition"""
+    size = rng.randint(1, 16)
+    signed = rng.random() < 0.4
+    factor = rng.choice(["1", "0.5", "2", "0.25", "-1", "-0.5", "10", "0.1"])
+    offset = rng.choice(["0", "0", "-40", "1.5", "100", "-0.5"])
+    lo, hi = (-(1 << (size - 1)), (1 << (size - 1)) - 1) if signed else (0, (1 << size) - 1)
+    a, b = sorted([rng.randint(lo, hi), rng.randint(lo, hi)])
+    if rng.random() < 0.3:
+        a, b = lo, hi
+    f_, o_ = G.D(factor), G.D(offset)
+    pa, pb = sorted([a * f_ + o_, b * f_ + o_])
+    r = rng.choice([a, b, rng.randint(a, b), max(a, min(b, 0))])
+    return {"size": size, "signed": signed, "factor": exact(factor), "offset": exact(offset), "min": exact(pa), "max": exact(pb),
+            "initial": exact(r * f_ + o_), "dflt": rng.choice([None, None, exact("0"), exact("1")]),
+            "strs": {"factor": factor, "offset": offset, "min": str(pa), "max": str(pb), "initial": str(r * f_ + o_)}}
+
+
+def observe_start(c):
+    import canmatrix.canmatrix as cm
+    db = cm.CanMatrix()
+    if c["dflt"] is not None:
+        db.add_signal_defines("GenSigStartValue", "FLOAT 0 100000000000")
+        db.add_define_default("GenSigStartValue", str(G.D((-1 if c["dflt"][0] else 1) * int(c["dflt"][1])).scaleb(c["dflt"][2])))
+    st = c["strs"]
+    fr = cm.Frame("F", arbitration_id=cm.ArbitrationId(5, False), size=8)
+    sg = cm.Signal("s", start_bit=0, size=c["size"], is_little_endian=True, is_signed=c["signed"], factor=G.D(st["factor"]), offset=G.D(st["offset"]),
+                   min=G.D(st["min"]), max=G.D(st["max"]))
+    sg.initial_value = G.D(st["initial"])
+    fr.add_signal(sg)
+    db.add_frame(fr)
+    try:
+        data = M.export_bytes(db, "dbc")
+        m = re.search(rb'^BA_ "GenSigStartValue" SG_ 5 s (\S+);', data, re.M)
+        dbs, _ = M.import_bytes(data, "dbc")
+        db2 = list(dbs.values())[0] if isinstance(dbs, dict) else dbs
+        back = db2.frames[0].signals[0].initial_value
+        return {"attr": int(G.D(m.group(1).decode())) if m else None, "initial": M.dec_tuple(back) and [bool(M.dec_tuple(back)[0]), M.dec_tuple(back)[1], M.dec_tuple(back)[2]]}
+    except Exception as e:  # noqa
+        return {"exc": type(e).__name__ + ": " + str(e)[:120], "attr": None, "initial": None}
 
 
 def cases_of(desc, rng=None):
@@ -171,8 +215,10 @@ def section_lines(r):
 
 def observe(case):
     c = case["c"]
-    r = run(c["m"])
     op = case["op"]
+    if op == "start":
+        return observe_start(c)
+    r = run(c["m"])
     if op == "rt":
         if r["exc"]:
             return {"exc": r["exc"], "err": False, "fixed": False, "diffs": []}
@@ -216,6 +262,8 @@ def observe(case):
 def project(impl):
     if "fixed" in impl or "exc" in impl and len(impl) == 1:
         return {}
+    if "attr" in impl:
+        return {"attr": impl["attr"], "initial": impl["initial"]}
     if "section" in impl:
         return {"section": impl["section"], "read": impl["read"]}
     return {"line": impl.get("line"), "parsed": impl.get("parsed")}
@@ -224,6 +272,10 @@ def project(impl):
 def features(case, impl):
     c = case["c"]
     yield "op=" + case["op"]
+    if case["op"] == "start":
+        yield "start:default=%s" % ("none" if c["dflt"] is None else "given")
+        yield "start:written=%s" % (impl.get("attr") is not None)
+        return
     if case["op"] == "rt":
         m = c["m"]
         yield "enc=%s/%s" % (m["enc"], m.get("cenc"))
